@@ -24,7 +24,7 @@ STATS = [None]
 
 def alphabet(cfg):
     ops = [['train'], ['eval'], ['reset'], ['ckpt', True, True],
-           ['train_reset']]
+           ['train_reset'], ['keep'], ['rollback']]
     k = cfg['kfac']
     if not any(isinstance(k.get(n), list) for n in K.HP_NAMES):
         ops.append(['sched', SCHED])
@@ -79,6 +79,12 @@ def valid_next(cfg, rr, op):
     ref = rr.ref
     if op[0] == 'train_reset' and any(ref.A[n] is None
                                       for n in ref.layers):
+        return False
+    if op[0] == 'keep' and (any(ref.A[n] is None for n in ref.layers)
+                            or getattr(rr, 'kept', None) is not None):
+        return False  # one kept state per history, taken after a step
+    if op[0] == 'rollback' and (getattr(rr, 'kept', None) is None
+                                or rr.kept['steps'] == ref.steps):
         return False
     if op[0] in ('train', 'train_reset'):
         # second-order data must exist or be refreshed now
@@ -142,7 +148,7 @@ def bfs_case(part, item):
                     continue
                 if op[0] in ('train', 'train_reset') and not rv['inv_step']:
                     nontrivial = True
-                k = _dg(r2.pre, r2.model)
+                k = _dg(r2.pre, r2.model, getattr(r2, 'kept', None))
                 if k in seen:
                     continue
                 seen.add(k)
@@ -200,7 +206,8 @@ def main(run: core.Run):
     run.notes['depth'] = depth
     run.rule = (
         f'BFS to depth {depth} over {{train iteration, eval pass, '
-        'reset_batch at a boundary and between backward and step, checkpoint round trip into a fresh preconditioner, '
+        'reset_batch at a boundary and between backward and step, keeping a '
+        'state and rolling the same object back to it, checkpoint round trip into a fresh preconditioner, '
         'scheduler step}} on the real KFACPreconditioner (2-layer MLP) in '
         'lock-step with RefKFAC, for interval pairs incl. non-multiples and '
         'callables x accumulation {1,2} x hook/no-hook x constant or strictly '
